@@ -403,27 +403,34 @@ fn grid(out: &mut String, r: &mut Rng, maxdim: usize) -> usize {
     let values = [-2.0, 0.0, 0.5, 2.0];
     let bounds: [Option<f64>; 5] = [None, Some(-1.0), Some(0.0), Some(0.5), Some(1.0)];
     for dim in 0..=maxdim {
-        // row = dim is the first invalid row (assertion)
+        // row = dim is the first invalid row (assertion): one parameter choice per generator
         for row in 0..=dim {
+            let valid = row < dim;
             emit_act(out, r, &next(&mut k), "relu", dim, row, &[]);
             emit_act(out, r, &next(&mut k), "hard_sigmoid", dim, row, &[]);
             for a in alphas {
-                emit_act(out, r, &next(&mut k), "leaky_relu", dim, row, &[a]);
+                if valid || a == 0.5 {
+                    emit_act(out, r, &next(&mut k), "leaky_relu", dim, row, &[a]);
+                }
             }
             for l in lambdas {
-                emit_act(out, r, &next(&mut k), "hard_shrink", dim, row, &[l]);
+                if valid || l == 0.5 {
+                    emit_act(out, r, &next(&mut k), "hard_shrink", dim, row, &[l]);
+                }
             }
             for (i, lo) in tvals.iter().enumerate() {
                 for (j, hi) in tvals.iter().enumerate() {
                     // all pairs min <= max (min = max included) and the neighbouring pairs min > max (assertion)
-                    if i <= j || i == j + 1 {
+                    if (valid && (i <= j || i == j + 1)) || (!valid && i == 1 && j == 3) {
                         emit_act(out, r, &next(&mut k), "hard_tanh", dim, row, &[*lo, *hi]);
                     }
                 }
             }
             for th in thetas {
                 for v in values {
-                    emit_act(out, r, &next(&mut k), "threshold", dim, row, &[th, v]);
+                    if valid || (th == 0.5 && v == 2.0) {
+                        emit_act(out, r, &next(&mut k), "threshold", dim, row, &[th, v]);
+                    }
                 }
             }
         }
@@ -440,6 +447,11 @@ fn grid(out: &mut String, r: &mut Rng, maxdim: usize) -> usize {
             print!("{}", out);
             out.clear();
         }
+    }
+    for dim in (maxdim + 1)..=(maxdim + 2) {
+        emit_argmax(out, r, &next(&mut k), dim);
+        emit_class(out, r, &next(&mut k), dim, dim - 1);
+        emit_class(out, r, &next(&mut k), dim, 0);
     }
     // fixed from_poly / slicing edge cases
     let unit_box = Polytope::from_mats(
